@@ -294,6 +294,8 @@ type fakeCtx struct{ context.Context }
 type fakeScope struct{ godi.Scope }
 type fakeProvider struct{ godi.Provider }
 
+func (*fakeProvider) String() string { return "fakeProvider" }
+
 type outWithCtx struct {
 	godi.Out
 	A *kit.P0
@@ -302,6 +304,16 @@ type outWithCtx struct {
 type outWithScope struct {
 	godi.Out
 	S godi.Scope `name:"x"`
+}
+type outWithCtxGroup struct {
+	godi.Out
+	A *kit.P0
+	C context.Context `group:"g"`
+}
+type outWithProviderGroup struct {
+	godi.Out
+	P godi.Provider `group:"g"`
+	A *kit.P1
 }
 
 func c18Reserved() []Finding {
@@ -343,6 +355,28 @@ func c18Reserved() []Finding {
 		{"result object named field Scope", func(c godi.Collection) error {
 			return c.AddScoped(func() outWithScope { return outWithScope{} })
 		}},
+		// the grouped variants of every batch form (a group member has no (type, key) identity of its own)
+		{"As[context.Context] in a group", func(c godi.Collection) error {
+			return c.AddSingleton(func() *fakeCtx { return &fakeCtx{bg} }, godi.As[context.Context](), godi.Group("g"))
+		}},
+		{"As[Scope] in a group", func(c godi.Collection) error {
+			return c.AddScoped(func() *fakeScope { return &fakeScope{} }, godi.As[godi.Scope](), godi.Group("g"))
+		}},
+		{"As[IA]+As[Provider] in a group", func(c godi.Collection) error {
+			return c.AddTransient(func() *fakeProvider { return &fakeProvider{} }, godi.As[fmt.Stringer](), godi.As[godi.Provider](), godi.Group("g"))
+		}},
+		{"result object group field context.Context", func(c godi.Collection) error {
+			return c.AddSingleton(func() outWithCtxGroup { return outWithCtxGroup{A: &kit.P0{}, C: bg} })
+		}},
+		{"result object group field Provider first", func(c godi.Collection) error {
+			return c.AddTransient(func() outWithProviderGroup { return outWithProviderGroup{A: &kit.P1{}} })
+		}},
+		{"second return Scope in a group", func(c godi.Collection) error {
+			return c.AddScoped(func() (*kit.P0, godi.Scope) { return &kit.P0{}, nil }, godi.Group("g"))
+		}},
+		{"first return Provider in a group", func(c godi.Collection) error {
+			return c.AddTransient(func() (godi.Provider, *kit.P1) { return nil, &kit.P1{} }, godi.Group("g"))
+		}},
 		{"module entry returning context.Context", func(c godi.Collection) error {
 			return c.AddModules(godi.NewModule("m", godi.AddSingleton(func() context.Context { return bg })))
 		}},
@@ -375,7 +409,7 @@ func c18Reserved() []Finding {
 func init() {
 	mc.Register(&mc.Check{
 		Prop:        "C18",
-		Rule:        "scope trees of three scopes under the provider in all 6 parent shapes (chain, star, forks) x per-scope context kind {cancellable with a value, nil, plain with a value, derived from the parent scope's Context(), derived from ANOTHER scope's (s1) Context()} x {positional, In-struct (value and pointer)} consumers x 3 resolution orders (one revisits scopes so caches are hit); services of every lifetime (singleton, scoped, transient, scoped initializer, transient group member, nested transient-inside-scoped, and a parameter-object consumer one of whose dependencies re-entrantly resolves another parameter-object service through the injected Provider) take Context / Scope / Provider; every recorded constructor argument and every direct Get of the three built-ins is compared with the scope the resolution was issued on (singletons: the provider's root scope), its Context(), FromContext of the injected context, and the root provider; context values, FromContext on the scope context and on a derived context, Scope.Provider(), synchronous cancellation propagation along the context ancestry (and non-propagation to unrelated scopes, which must stay usable after the watchers ran) are checked per scope; concurrent part: two goroutines resolving built-in consumers in two different scopes (siblings, parent/child, provider/scope) and scope creation (scoped initializer taking the built-ins) against a resolution, every schedule within the preemption bound (2 quick / 3 thorough; one less for the deep consumer), same injected-built-in oracle plus race/panic/deadlock detection; 14 registration routes for the three reserved types must fail and leave the collection unchanged. distinct = canonical observation strings.",
+		Rule:        "scope trees of three scopes under the provider in all 6 parent shapes (chain, star, forks) x per-scope context kind {cancellable with a value, nil, plain with a value, derived from the parent scope's Context(), derived from ANOTHER scope's (s1) Context()} x {positional, In-struct (value and pointer)} consumers x 3 resolution orders (one revisits scopes so caches are hit); services of every lifetime (singleton, scoped, transient, scoped initializer, transient group member, nested transient-inside-scoped, and a parameter-object consumer one of whose dependencies re-entrantly resolves another parameter-object service through the injected Provider) take Context / Scope / Provider; every recorded constructor argument and every direct Get of the three built-ins is compared with the scope the resolution was issued on (singletons: the provider's root scope), its Context(), FromContext of the injected context, and the root provider; context values, FromContext on the scope context and on a derived context, Scope.Provider(), synchronous cancellation propagation along the context ancestry (and non-propagation to unrelated scopes, which must stay usable after the watchers ran) are checked per scope; concurrent part (8 scenarios quick / 16 thorough): two goroutines resolving built-in consumers in two different scopes (siblings, parent/child, provider/scope) and scope creation (scoped initializer taking the built-ins) against a resolution, every schedule within the preemption bound (2 quick / 3 thorough; one less for the deep consumer), same injected-built-in oracle plus race/panic/deadlock detection; 21 registration routes for the three reserved types (plain, keyed, grouped, alias, extra return, result-object field, module entry - and the grouped variant of every batch form) must fail and leave the collection unchanged. distinct = canonical observation strings.",
 		Assume:      []string{"cancellation is observed synchronously (context.WithCancel semantics)"},
 		MinOutcomes: 4,
 		Jobs: func(tier string) []mc.Job {
@@ -424,10 +458,10 @@ func init() {
 				{Name: "c18-reserved", Run: func(r *mc.Report) {
 					var fs []Finding
 					s := seqOnce(func() { fs = c18Reserved() })
-					r.Executions += 14
-					r.Validated += 14
-					r.States += 14
-					r.Transitions += 14
+					r.Executions += 21
+					r.Validated += 21
+					r.States += 21
+					r.Transitions += 21
 					r.Outcome("reserved-type registration attempts")
 					fs = append(fs, genericFindings(nil, s)...)
 					for _, f := range fs {
@@ -440,8 +474,13 @@ func init() {
 			if tier == "thorough" {
 				pre = 3
 			}
+			quickSet := map[string]bool{"c18-conc/in-0-2": true, "c18-conc/in-1-2": true, "c18-conc/in-2-2": true, "c18-conc/in-0-0": true, "c18-conc/in-2-3": true,
+				"c18-conc/in-1-1": true, "c18-conc/positional-0-2": true, "c18-conc/create-vs-get": true}
 			for _, sc := range c18ConcScenarios() {
 				sc := sc
+				if tier != "thorough" && !quickSet[sc.Name] {
+					continue
+				}
 				b := pre
 				if strings.HasSuffix(sc.Name, "-1") {
 					b-- // the deep consumer (P3: transient + two scoped dependencies, ~4x the scheduling points)
